@@ -832,6 +832,8 @@ def _run_cfg(case, ck):
         check_vector(c, ck, vec, "vec=%s" % (list(vec),), acc=acc,
                      lite=case.get("lite", False))
         nvec += 1
+        if len(ck.viol) >= 12:        # the case is decided; keep replays small
+            break
     ck.metric("vectors-per-case", nvec)
     # ---- list form == dict form; LnpostWrapper ---------------------------
     if case.get("block") in (None, 0):
